@@ -239,7 +239,11 @@ func dropEmpties(tr interface{}) interface{} { return normGob(tr) }
 func c01Case(c *Ctx, tr interface{}, tag string) {
 	after, _, viol := jsonRoundTrip(tr)
 	in := map[string]interface{}{"op": "jsonRoundTrip", "v": tr}
-	c.Emit(in, after, true)
+	var shown interface{}
+	if after != nil {
+		shown = dropEmpties(after)
+	}
+	c.Emit(in, shown, true)
 	c.Tag(tag)
 	if viol != "" {
 		cls := "C01/roundtrip"
